@@ -58,13 +58,30 @@ def behaviours(rng, n):
     out.append([bal("A"), bal("B"), bal("M"), {"op": "propose", "iss": "A", "rcv": "M", "amt": 2}, bal("A"), bal("B"), bal("M"), lift,
                 bal("A"), bal("B"), bal("M"), {"op": "propose", "iss": "A", "rcv": "M", "amt": 0, "data": True}, lift, bal("A"), bal("M"),
                 {"op": "confirm", "k": 1}, bal("A"), bal("M"), {"op": "confirm", "k": 1}, {"op": "reject", "k": 1}, lift, bal("A"), bal("M")])
+    # O-B2 on the real code: the save goroutine of a read is held back (a gate in front of the real cache's SaveBalance),
+    # a seal and its invalidation happen, the save lands: the pre-seal number is cached and served
+    hold = lambda a: {"op": "bal", "a": a, "by": a, "d": a, "hold": True}
+    land = {"op": "land"}
+    out.append([hold("A"), {"op": "propose", "iss": "A", "rcv": "B", "amt": 3}, land, bal("A"), lift, bal("A"), hold("B"), land, lift, bal("B"),
+                {"op": "propose", "iss": "A", "rcv": "B", "amt": 2}, hold("B"), hold("A"), {"op": "propose", "iss": "A", "rcv": "B", "amt": 1},
+                land, bal("A"), bal("B"), lift, bal("A"), bal("B")])
+    out.append([hold("B"), {"op": "propose", "iss": "A", "rcv": "B", "amt": 4, "data": True}, {"op": "confirm", "k": 0}, land, bal("B"), bal("A"),
+                lift, bal("B"), hold("M"), land, hold("M"), lift, hold("M"), land, bal("M")])
     for _ in range(n):
         ops, k = [], 0
+        heldnow = set()
         for _ in range(rng.randint(8, 22)):
             r = rng.random()
             if r < 0.45:
                 a = rng.choice(ADDRS)
-                ops.append(bal(a, a if rng.random() < 0.8 else rng.choice(ADDRS), a if rng.random() < 0.85 else rng.choice(ADDRS)))
+                if rng.random() < 0.2 and a not in heldnow:
+                    ops.append(hold(a))
+                    heldnow.add(a)       # at most one held save per address (it may turn out not to be started at all)
+                else:
+                    ops.append(bal(a, a if rng.random() < 0.8 else rng.choice(ADDRS), a if rng.random() < 0.85 else rng.choice(ADDRS)))
+            elif r < 0.52:
+                ops.append(land)
+                heldnow = set()
             elif r < 0.65:
                 amt = rng.randint(1, 6) if rng.random() < 0.8 else 0
                 ops.append({"op": "propose", "iss": "A", "rcv": rng.choice(["B", "M"]), "amt": amt, "data": amt == 0 or rng.random() < 0.5})
@@ -110,6 +127,8 @@ def drive_validate(wd, drivebin, behs):
             acts["Bal:" + e["res"]] = acts.get("Bal:" + e["res"], 0) + 1
             if e["res"] == "ok" and e["val"] != e["ref"]:
                 acts["stale_served"] += 1
+            if e.get("held"):
+                acts["saves_held"] = acts.get("saves_held", 0) + 1
     return violations, len(lines), acts
 
 
